@@ -38,10 +38,16 @@ for (const line of fs.readFileSync(process.argv[2], 'utf8').split('\n')) {
       });
     };
     const value = () => { const x = r(); return x < 0.3 ? true : x < 0.6 ? false : x < 0.7 ? undefined : x < 0.75 ? 0 : opaque(); };
+    // the value of a free name: the reference semantics (like the analyzer, like ESLint) takes the evaluation of a bare
+    // identifier — and what a statement does with its value: iterating it in for-of, `with`, destructuring it — as unable to
+    // throw.  The recorded executions stay inside that assumption: a free name is the empty string (falsy, iterable,
+    // convertible to an object) or an opaque object (truthy, iterable, callable, constructible), never null / undefined /
+    // a number.  What calls and property reads return is arbitrary.
+    const name = () => (r() < 0.45 ? '' : opaque());
     const scope = new Proxy({}, {
       has(t, k) { return typeof k === 'string' && !KEEP.has(k); },
       // names the generators use in call position are callable (returning anything); the others are any value
-      get(t, k) { if (k === Symbol.unscopables) return undefined; if (/^(f|g|h|h1|c|foo|bar|tag|use|call\d*|f9|foo\d+|X|C)$/.test(k)) return opaque(); return value(); },
+      get(t, k) { if (k === Symbol.unscopables) return undefined; if (/^(f|g|h|h1|c|foo|bar|tag|use|call\d*|f9|foo\d+|X|C)$/.test(k)) return opaque(); return name(); },
       set() { return true; },
     });
     // (a loop without a marked statement in it never reaches the step budget: a wall-clock limit ends it)
